@@ -12,6 +12,8 @@ for d in sys.argv[1:]:
         old = json.load(open(os.path.join(d, "meta.json")))
     except Exception:
         pass
+    if old.get("obsolete"):
+        print(d, "obsolete (kept)", old.get("detected_by")); continue
     viol = re.findall(r"^VIOLATION property=(C\d+)[^\n]*", det, re.M)
     ran = re.findall(r"^(C\d+) (ok|FAIL)", det, re.M)
     paras = [p.strip() for p in readme.split("\n\n") if p.strip()]
@@ -27,6 +29,7 @@ for d in sys.argv[1:]:
             "demo_with_patch": "FAIL" if re.search(r"WITH patch:\s*\n(FAIL|---)", conf) else ("see confirm.log" if conf else "n/a"),
         },
         "checks_run": ["%s:%s" % (a, b) for a, b in ran],
+        "obsolete": old.get("obsolete", False),
         "detected_by": sorted(set(viol)),
         "detected": bool(viol),
         "detect_cmd": "tools/seedtest.sh %s %s" % (d, " ".join(sorted(set(a for a, _ in ran)))),
